@@ -32,8 +32,10 @@ array<Value, Index>::array(const self_type &rhs)
       m_small_block_size(rhs.m_small_block_size),
       m_large_block_size(rhs.m_large_block_size),
       m_local_start_index(rhs.m_local_start_index),
-      m_local_vec(rhs.m_local_vec),
       pthis(this) {
+  // Updates still in flight to rhs belong to the values being copied
+  m_comm.barrier();
+  m_local_vec = rhs.m_local_vec;
   pthis.check(m_comm);
 }
 
